@@ -72,4 +72,62 @@ theorem crop_height (H : Nat) (inner : Option Nat) :
     ((∃ h, cropOutcome H inner = .blank h) ↔ inner = none) := by
   cases inner <;> simp [cropOutcome]
 
+
+/-! ### Resampling along the baseline and the grid of a straight baseline -/
+
+/-- `reverse_line_mapping` as `get_crop_inputs` uses it (forward mapping `0 :: F'` starting at 0 — it is
+`concat([0], cumsum(...))` — and non-negative sample positions): the scan never advances, and every output is
+the point of the CHORD between the first and the last sampled value at fraction `t / L` (`L` = total length).
+So the columns advance uniformly in the baseline frame's x, from the first to the last sample. -/
+theorem reverse_is_chord (F' ts X : List Rat) (hF : F' ≠ []) (hlen : X.length = F'.length + 1)
+    (hL : F'.getLast hF ≠ 0) (hts : ∀ t ∈ ts, 0 ≤ t) :
+    ∃ x0 xl, X.head? = some x0 ∧ X.getLast? = some xl ∧
+      reverseLineMapping (0 :: F') ts X = some (ts.map fun t => x0 + t / (F'.getLast hF) * (xl - x0)) :=
+  reverse_chord F' ts X hF hlen hL hts
+
+/-- Documented consequence: it is NOT the inverse of the arc-length map (that would give 11 here). -/
+example : reverseLineMapping [0, 1, 5/2] [1] [10, 11, 12] = some [54/5] := by decide +kernel
+
+/-- number of target columns of a straight baseline with `n` unit samples -/
+def straightCount (n : Nat) (h0 h1 : Rat) (H : Nat) : Nat :=
+  ((((n : Nat) : Rat) - 1) * ((H : Nat) : Rat) / (h0 + h1)).floor.toNat
+
+/-- The grid of a straight baseline exists (no exception inside), has the configured height and
+`straightCount` columns. -/
+theorem straight_grid_shape (R : Rot) (left y0 : Rat) (n : Nat) (h0 h1 : Rat) (H : Nat) (hn : 2 ≤ n) (hH : 2 ≤ H) :
+    ∃ g, straightGrid R left y0 n h0 h1 H = some g ∧ g.length = H ∧
+      ∀ row ∈ g, row.length = straightCount n h0 h1 H := by
+  have _ := hH  -- not needed: `linspace` has `H` entries for every `H`
+  exact straightGrid_shape R left y0 n h0 h1 H hn
+
+/-- Columns advance uniformly along the baseline from its first to its last sample, rows run linearly from
+`-h0` (first row) to `+h1` (last row) perpendicular to it: entry `(r, c)` of the grid is the rotation back of
+`(left + (n-1)·c/(count-1), y0 - h0 + (h0+h1)·r/(H-1))`. -/
+theorem straight_grid_entry (R : Rot) (left y0 : Rat) (n : Nat) (h0 h1 : Rat) (H : Nat) (hn : 2 ≤ n) (hH : 2 ≤ H)
+    (hc : 2 ≤ straightCount n h0 h1 H) (g : List (List (Rat × Rat))) (hg : straightGrid R left y0 n h0 h1 H = some g)
+    (r c : Nat) (hr : r < H) (hcc : c < straightCount n h0 h1 H) :
+    (g[r]?.bind fun row => row[c]?) =
+      some (R.apply (left + (((n : Nat) : Rat) - 1) * ((c : Nat) : Rat) / ((((straightCount n h0 h1 H : Nat)) : Rat) - 1),
+                     y0 + (-h0 + (h1 - -h0) * ((r : Nat) : Rat) / (((H : Nat) : Rat) - 1)))) :=
+  straightGrid_entry R left y0 n h0 h1 H hn hH (straightCount n h0 h1 H) rfl hc g hg r c hr hcc
+
+/-- The rotation back to page coordinates preserves distances ... -/
+theorem rot_isometry (R : Rot) (h : R.c * R.c + R.s * R.s = 1) (p q : Rat × Rat) :
+    ((R.apply p).1 - (R.apply q).1) * ((R.apply p).1 - (R.apply q).1) +
+      ((R.apply p).2 - (R.apply q).2) * ((R.apply p).2 - (R.apply q).2) =
+    (p.1 - q.1) * (p.1 - q.1) + (p.2 - q.2) * (p.2 - q.2) :=
+  rot_iso R h p q
+
+/-- ... and right angles: a step along the baseline (dx) and a step across it (dy) stay perpendicular in
+page coordinates, so in the crop of a straight baseline rows run perpendicular to the columns' direction. -/
+theorem rot_perpendicular (R : Rot) (h : R.c * R.c + R.s * R.s = 1) (x y dx dy : Rat) :
+    ((R.apply (x + dx, y)).1 - (R.apply (x, y)).1) * ((R.apply (x, y + dy)).1 - (R.apply (x, y)).1) +
+      ((R.apply (x + dx, y)).2 - (R.apply (x, y)).2) * ((R.apply (x, y + dy)).2 - (R.apply (x, y)).2) = 0 := by
+  have _ := h  -- not needed: holds for every matrix of the form [[c, s], [-s, c]]
+  exact rot_perp R x y dx dy
+
+/-- non-vacuity: a 3-4-5 rotation is admissible and the example grid is defined -/
+example : ((3 : Rat) / 5) * (3 / 5) + (4 / 5) * (4 / 5) = 1 := by decide +kernel
+example : (straightGrid ⟨3/5, 4/5⟩ 5 7 5 2 1 3).isSome = true := by decide +kernel
+
 end C10
